@@ -321,6 +321,57 @@ pub fn logic_oracle(url: &str, text: &str, report: &mut Report, replay: &serde_j
 }
 
 /// the public member signatures of an emitted class keep their name, staticness and accessibility
+/// the documented normalisation of defaulted parameters: in the trailing run of optional, defaulted
+/// and rest parameters a defaulted parameter becomes optional (`p?: T`), before it `p: T | undefined`
+pub fn param_optionality_oracle(report: &mut Report, url: &str, d: &Decl, parsed: &deno_ast::ParsedSource, replay: &serde_json::Value) {
+  let DeclKind::Function { f, overloads: 0 } = &d.kind else { return };
+  let deno_ast::ProgramRef::Module(module) = parsed.program_ref() else { return };
+  let func = module.body.iter().find_map(|item| match item {
+    swc::ModuleItem::ModuleDecl(swc::ModuleDecl::ExportDecl(e)) => match &e.decl {
+      swc::Decl::Fn(fd) if fd.ident.sym.as_str() == d.name => Some(&fd.function),
+      _ => None,
+    },
+    swc::ModuleItem::ModuleDecl(swc::ModuleDecl::ExportDefaultDecl(e)) => match &e.decl {
+      swc::DefaultDecl::Fn(fe) => Some(&fe.function),
+      _ => None,
+    },
+    swc::ModuleItem::Stmt(swc::Stmt::Decl(swc::Decl::Fn(fd))) if fd.ident.sym.as_str() == d.name => Some(&fd.function),
+    _ => None,
+  });
+  let Some(func) = func else { return };
+  if func.params.len() != f.params.len() {
+    return;
+  }
+  for (k, p) in f.params.iter().enumerate() {
+    if p.dflt.is_none() || p.rest {
+      continue;
+    }
+    let in_trailing_run = f.params[k..].iter().all(|q| q.opt || q.dflt.is_some() || q.rest);
+    // a retained default (`p = 1`) is neither form
+    let swc::Pat::Ident(b) = &func.params[k].pat else { continue };
+    let ty = b.type_ann.as_ref().map(|t| crate::fcgen::strip_ws(deno_ast::SourceRangedForSpanned::text_fast(&*t.type_ann, parsed.text_info_lazy()))).unwrap_or_default();
+    let ok = if in_trailing_run { b.id.optional } else { !b.id.optional && ty.ends_with("|undefined") };
+    report.count(if in_trailing_run { "defaulted-parameter:in-trailing-optional-run" } else { "defaulted-parameter:before-a-required-one" });
+    if !ok {
+      report.fail(
+        "oracle",
+        "defaulted-parameter-normalised-wrongly",
+        format!(
+          "{}: parameter `{}` of `{}` has a default and {}; it is emitted as `{}{}: {}`",
+          url,
+          p.name,
+          d.name,
+          if in_trailing_run { "only optional, defaulted or rest parameters follow: it should be optional" } else { "a required parameter follows: it should be required with `| undefined`" },
+          b.id.sym,
+          if b.id.optional { "?" } else { "" },
+          ty
+        ),
+        replay.clone(),
+      );
+    }
+  }
+}
+
 pub fn member_signature_oracle(report: &mut Report, url: &str, d: &Decl, tok: &str, replay: &serde_json::Value) {
   if let DeclKind::Class { members, .. } = &d.kind {
     let segs: Vec<&str> = tok.split(" | ").collect();
@@ -451,6 +502,7 @@ pub fn run(tier: &str, seed: u64) -> Report {
             let tok = toks.iter().find(|(n, _)| *n == d.name).map(|(_, t)| t.clone()).unwrap_or("ABSENT".into());
             batch.push(req, tok.clone(), false);
             member_signature_oracle(&mut report, &url, &d, &tok, &replay);
+            param_optionality_oracle(&mut report, &url, &d, &parsed, &replay);
             report.count(&format!("{}:emitted", kind));
             report.nontrivial.insert(format!("{}/ok/{}", kind, feature_class(&tok)));
           }
